@@ -6,6 +6,7 @@ import (
 	"go/ast"
 	"go/token"
 	"go/types"
+	"sort"
 
 	"fpcheck/core"
 
@@ -830,11 +831,34 @@ func PtrDeref(c *core.Ctx, rule string, pkgs []*packages.Package) {
 			key := bc.fb.Name + "/*" + po.Name()
 			// the right operand of && / || runs only when the left one allowed it
 			shortCircuited := map[ast.Node]bool{}
-			nilTest := func(nd ast.Node) bool {
+			directNilTest := func(nd ast.Node) bool {
 				return nodeContains(nd, false, func(x ast.Node) bool {
 					be, ok := x.(*ast.BinaryExpr)
 					return ok && (be.Op == token.EQL || be.Op == token.NEQ) &&
 						(objOf(info, be.X) == po && isNilIdent(info, be.Y) || objOf(info, be.Y) == po && isNilIdent(info, be.X))
+				})
+			}
+			// a bool local that records the nil test (`aNil := a == nil`) stands for it in later conditions
+			nilFlags := map[types.Object]bool{}
+			ast.Inspect(bc.fb.Body, func(x ast.Node) bool {
+				if as, ok := x.(*ast.AssignStmt); ok && as.Tok == token.DEFINE && len(as.Lhs) == len(as.Rhs) {
+					for i, l := range as.Lhs {
+						if id, ok := l.(*ast.Ident); ok && directNilTest(as.Rhs[i]) {
+							if o := info.Defs[id]; o != nil && types.Identical(o.Type(), types.Typ[types.Bool]) {
+								nilFlags[o] = true
+							}
+						}
+					}
+				}
+				return true
+			})
+			nilTest := func(nd ast.Node) bool {
+				if directNilTest(nd) {
+					return true
+				}
+				return len(nilFlags) > 0 && nodeContains(nd, false, func(x ast.Node) bool {
+					id, ok := x.(*ast.Ident)
+					return ok && nilFlags[info.Uses[id]]
 				})
 			}
 			ast.Inspect(bc.fb.Body, func(x ast.Node) bool {
@@ -935,4 +959,101 @@ func BothSizes(c *core.Ctx, rule string, pkgs []*packages.Package) {
 		}
 	}
 	c.Floor(rule, "container equalities that iterate", n, 2)
+}
+
+// PtrIdentity (C09): an instance for a pointer type compares / hashes what the pointers refer to. The built-in `==`
+// on pointers compares addresses, so a `comparable`-constrained function of the instance packages (eq.Given,
+// hash.Given, …) instantiated at a pointer type yields an Eq[*T] that separates different pointers to equal targets.
+func PtrIdentity(c *core.Ctx, rule string, pkgs []*packages.Package) {
+	c.Rule(rule, "no function of the instance packages whose type parameter is constrained by `comparable` (the instances built on the built-in ==) is instantiated at a pointer type inside those packages: equality of *T is the equality of the targets (eq.Ptr), not of the addresses")
+	n := 0
+	for _, p := range pkgs {
+		if p == nil {
+			continue
+		}
+		type inst struct {
+			id *ast.Ident
+			in types.Instance
+		}
+		var all []inst
+		for id, in := range p.TypesInfo.Instances {
+			all = append(all, inst{id, in})
+		}
+		sort.Slice(all, func(i, j int) bool { return all[i].id.Pos() < all[j].id.Pos() })
+		for _, it := range all {
+			fn, ok := p.TypesInfo.Uses[it.id].(*types.Func)
+			if !ok || fn.Pkg() == nil {
+				continue
+			}
+			inPkgs := false
+			for _, q := range pkgs {
+				if q != nil && q.Types == fn.Pkg() {
+					inPkgs = true
+				}
+			}
+			if !inPkgs {
+				continue
+			}
+			sig, _ := fn.Type().(*types.Signature)
+			if sig == nil || sig.TypeParams() == nil {
+				continue
+			}
+			for k := 0; k < sig.TypeParams().Len() && k < it.in.TypeArgs.Len(); k++ {
+				tp := sig.TypeParams().At(k)
+				iface, _ := tp.Constraint().Underlying().(*types.Interface)
+				if iface == nil || !iface.IsComparable() || iface.NumMethods() > 0 {
+					continue
+				}
+				// only the plain `comparable` family (no type-set restriction such as ~int | ~string)
+				if iface.NumEmbeddeds() > 0 {
+					plain := true
+					for e := 0; e < iface.NumEmbeddeds(); e++ {
+						if _, isUnion := iface.EmbeddedType(e).(*types.Union); isUnion {
+							plain = false
+						}
+					}
+					if !plain {
+						continue
+					}
+				}
+				n++
+				key := enclosingFuncName(p, it.id.Pos()) + "/" + fn.Pkg().Name() + "." + fn.Name() + "[" + types.TypeString(it.in.TypeArgs.At(k), func(q *types.Package) string { return q.Name() }) + "]"
+				if _, isPtr := it.in.TypeArgs.At(k).Underlying().(*types.Pointer); isPtr {
+					c.Add(rule, key, it.id.Pos(), core.Violated, fn.Pkg().Name()+"."+fn.Name()+" is built on the built-in == and is instantiated at the pointer type "+it.in.TypeArgs.At(k).String()+": two different pointers to equal targets compare unequal (and hash differently)")
+				} else {
+					c.Add(rule, key, it.id.Pos(), core.Discharged, "not a pointer type")
+				}
+			}
+		}
+	}
+	c.Floor(rule, "instantiations of comparable-constrained instance functions", n, 2)
+}
+
+// enclosingFuncName: the declared function (or package-level var) of p that contains pos.
+func enclosingFuncName(p *packages.Package, pos token.Pos) string {
+	for _, f := range p.Syntax {
+		if pos < f.Pos() || pos > f.End() {
+			continue
+		}
+		for _, d := range f.Decls {
+			if pos < d.Pos() || pos > d.End() {
+				continue
+			}
+			switch x := d.(type) {
+			case *ast.FuncDecl:
+				name := x.Name.Name
+				if x.Recv != nil && len(x.Recv.List) == 1 {
+					name = core.RecvTypeName(x.Recv.List[0].Type) + "." + name
+				}
+				return p.Types.Name() + "." + name
+			case *ast.GenDecl:
+				for _, sp := range x.Specs {
+					if vs, ok := sp.(*ast.ValueSpec); ok && pos >= vs.Pos() && pos <= vs.End() && len(vs.Names) > 0 {
+						return p.Types.Name() + ".var:" + vs.Names[0].Name
+					}
+				}
+			}
+		}
+	}
+	return p.Types.Name() + ".?"
 }
